@@ -397,6 +397,10 @@ func (r *SearchRequest) validatePagination() error {
 				return fmt.Errorf("invalid %s value for sort field '%s': '%s'. %s", afterOrBefore, ss.Field, pagination[i], err)
 			}
 		case *search.SortField:
+			if pagination[i] == search.HighTerm || pagination[i] == search.LowTerm {
+				// the sort value of a hit that has no value for the field
+				continue
+			}
 			switch ss.Type {
 			case search.SortFieldAsNumber:
 				_, err := strconv.ParseFloat(pagination[i], 64)
